@@ -106,6 +106,12 @@ def check(ctx):
         sp = gc.special_bytes(name)
         cx = gc.cx_of(name)
         lines.append("R %s 8" % name)
+        # (round decimal lengths and network sizes too: a staging buffer is as likely to be sized 1500 or 2000 as 2048)
+        for n in list(range(1, 131)) + [150, 200, 250, 300, 400, 500, 576, 750, 999, 1000, 1001, 1200, 1400, 1472, 1480, 1499, 1500, 1501, 1514, 1518, 1600, 2000, 2500, 3000, 3500, 4000]:
+            p = [cx["START"]] * n if n % 2 else [rng.choice([cx["START"], cx["STOP"], cx["STUB"]]) for _ in range(n)]
+            if name == "legacy": lines.append("Enc plain %s" % gc.fmt(p))
+            else:
+                lines.append("Enc vecbuf %s" % gc.fmt(p)); lines.append("Enc vec %s" % partitions(rng, p, False)[0])
         big = [127, 128, 129, 255, 256, 257, 511, 512, 513, 1023, 1024, 1025, 2046, 2047, 2048, 2049, 4095, 4096, 4097]
         if ctx.thorough: big += [8191, 8192, 16383, 16384, 32767, 32768, 65535, 65536]
         for n in big:
